@@ -780,3 +780,17 @@ val m09q_step : m09q -> event -> m09q option
 val m09q_run : m09q -> event list -> m09q option
 
 val chk_C09q : event list -> bool
+
+type m09s = { s_q : m09q; s_must : aid list map0 }
+
+val m09s_init : m09s
+
+val upgrades : sys -> aid -> bool
+
+val must_of : m09s -> aid -> aid list
+
+val m09s_step : sys -> m09s -> event -> m09s option
+
+val m09s_run : sys -> m09s -> event list -> (sys * m09s) option
+
+val chk_C09s : event list -> bool
